@@ -103,8 +103,14 @@ def appOp (args : List String) (impl : String) : Option Verdict := do
       let modelAlready := (w.out.map fun | .text b => countIn b | _ => 0).sum
       let modelConns := (w.client.trace.filter fun e => match e with | .ctlConnect _ _ => true | _ => false).length
       let implConns := (field toks "conns:").toNat?.getD 0
+      -- "ends only on 'exit' or end of input": the program prints more prompts than the model, which stopped at an `exit`
+      let prompt := str "ftp> "
+      let countP (hay : Bytes) : Nat := ((List.range (hay.length + 1 - prompt.length)).filter fun i => (hay.drop i).take prompt.length == prompt).length
+      let modelPrompts := (w.out.map fun | .text b => countP b | _ => 0).sum
+      let modelLeftInput := !w.stdin.isEmpty          -- the model ended (on `exit`) with input lines left unread
       let viol : Option String :=
         if exitS = "HANG" then some "hang"
+        else if modelLeftInput && !(w.out.contains .freeText) && countP out > modelPrompts then some "went-on-after-exit"
         else if w.out.contains .errorLine && (countIn out > modelAlready || implConns < modelConns ||
                   (srv.length > modelSrv.length && srv.take modelSrv.length = modelSrv && implConns ≤ modelConns)) then
           some "connection-kept-after-library-error"
